@@ -472,6 +472,33 @@ class Evaluator:
             if a.kind == "tr":
                 return Form("tr", p, q, nd)  # trunc(trunc(a/d)/D) == trunc(a/(d*D)) for d, D > 0
             return Form("tr", p, q, nd)
+        if op in ("ashr", "lshr"):
+            # a right shift by a constant of a value that the cell shows to be non-negative is the
+            # truncating division by 2^k; for a value of either sign the cell is split at zero; a
+            # negative value under `ashr` rounds toward minus infinity, which the forms do not express
+            a = self.ev(n.args[0])
+            b = self.ev(n.args[1])
+            for v in (a, b):
+                if isinstance(v, (Bad, Top)):
+                    return v
+            if not (isinstance(b, Form) and b.is_const() and isinstance(a, Form)):
+                return Top("shift by a non-constant")
+            k = int(b.at(0))
+            if not (0 <= k < bits):
+                return Bad("signed-overflow", n)  # shift count out of range: undefined
+            a = self.view(a, bits, op == "ashr", n)
+            if a.is_const():
+                v = int(a.at(0))
+                return K(v >> k) if a.at(0).denominator == 1 else Top("fractional const")
+            mn, mx = self.ends(a)
+            if mn >= 0:
+                return Form("tr", a.p, a.q, a.d * (1 << k))
+            if mx < 0:
+                return Top("arithmetic right shift of a negative value")
+            t = self.boundary(a, -1, True)
+            if t is None:
+                return Top("shift split failed")
+            raise Split(at=t)
         if op in ("srem", "urem"):
             signed = op == "srem"
             a = self.ev(n.args[0])
@@ -508,6 +535,8 @@ class Evaluator:
                 return K(0) if c[2] else NonZero(D - 1, a.p, a.q, D)
             if c[2] and c[0] % M == 0 and c[1] % M == r:
                 return K(0)  # member of a finer class
+            if c[2] and c[0] % M == 0 and c[1] % M != r:
+                return NonZero(D - 1, a.p, a.q, D)  # member of a finer class that misses the divisible one
             return Top("second congruence class (mod %d) inside cell with class mod %d" % (M, c[0]))
         if op == "icmp":
             pred = n.attr
